@@ -3,6 +3,7 @@ package walletsim
 import (
 	"fmt"
 	"sort"
+	"strings"
 	"time"
 
 	"github.com/anishathalye/porcupine"
@@ -156,6 +157,12 @@ func (x *world) checkC15(label string) {
 					continue
 				}
 				if int(h) >= len(x.node.Best) || x.node.Best[h].Hash != d.Block.Hash {
+					if x.discDuringRescan[d.Block.Hash] {
+						// see known_findings.json: disconnects are not
+						// applied while the start-up rescan runs
+						x.fail("tx-confirmed-in-stale-block:block-disconnected-during-start-up-rescan", "transaction %s is reported confirmed in block %d %s, which was disconnected while the start-up rescan was running and is not on the best chain", short(d.Hash), h, short(d.Block.Hash))
+						return true, nil
+					}
 					x.fail("tx-confirmed-in-stale-block:at="+at, "transaction %s is reported confirmed in block %d %s which is not on the best chain", short(d.Hash), h, short(d.Block.Hash))
 					return true, nil
 				}
@@ -169,7 +176,11 @@ func (x *world) checkC15(label string) {
 		return err
 	})
 	if err != nil && !x.violated {
-		x.fail("query-failed", "reading wallet state failed: %v", err)
+		if len(x.discDuringRescan) > 0 && strings.Contains(err.Error(), "missing transaction") {
+			x.fail("query-failed:missing-transaction-for-block:after-disconnect-during-start-up-rescan", "reading wallet state failed: %v", err)
+		} else {
+			x.fail("query-failed", "reading wallet state failed: %v", err)
+		}
 	}
 	x.env.State("c15:%d:%s", tip.Height, short(tip.Hash))
 }
